@@ -23,7 +23,9 @@ import PoetryVerif.Proofs.MarkerAlgSoundPfv
 import PoetryVerif.Proofs.MarkerAlgSoundPyInv
 import PoetryVerif.Proofs.MarkerAlgSoundPr
 import PoetryVerif.Proofs.MarkerAlgSoundInvLists
+import PoetryVerif.Proofs.MarkerAlgSoundFullC
 import PoetryVerif.Proofs.PyConvPairFinal
+import PoetryVerif.Proofs.PyConvPairCompat
 import PoetryVerif.Proofs.MarkerPrint
 
 set_option linter.unusedSimpArgs false
@@ -610,6 +612,61 @@ example : mkSingle "platform_release" ">=5.10" false = .ok (prLeafOf .ge ">=" 5 
   have t1 : ">=" ++ Version.relText [5, 10] = ">=5.10" := by decide
   exact ⟨t1 ▸ mkSingle_prLeaf (sop := .ge) (ops := ">=") (by decide) 5 [10],
     ⟨.ge, ">=", 5, [10], by decide, by simp, rfl⟩, invert_pr (by decide) 5 [10]⟩
+
+/-! ### `~=` leaves -/
+
+/-- **The leaf facts with `~=`, same variable, no hypothesis**: `python_version <op> "X.Y"` with `<op>` one of
+`== != < <= > >= ~=` (the same-name merge is proved for abstract operands — clause over two-component Python bounds,
+exact conversion — so that the `~=` leaf `[a.b, (a+1).0)` is just another instance), and
+`python_full_version <op> "X.Y.Z"` with the same seven operators (`~= "a.b.c"` is `[a.b.c, a.(b+1).0)`). -/
+theorem leafSpec_compat {X Y Z : Nat} (hE : EnvPy E X Y Z) :
+    LeafSpec (leafEval E) PvLeafC ∧ LeafSpec (leafEval E) Pfv3LeafC :=
+  ⟨leafSpec_pvC hE.1, leafSpec_pfv3C hE.2⟩
+
+/-- **Inverting a `~=` leaf**: `SingleMarker.invert` builds `name >= V` and `name < H` from texts with a blank after
+the operator, inverts both and unites them — `python_version ~= "a.b"` becomes
+`python_version < "a.b" or python_version >= "(a+1).0"`, `python_full_version ~= "a.b.c"` becomes
+`python_full_version < "a.b.c" or python_full_version >= "a.(b+1).0"`, and the result is true exactly where the
+leaf is false. -/
+theorem invert_compat_sound {X Y Z : Nat} (hE : EnvPy E X Y Z) (a b c : Nat) :
+    (Leaf.invert (.single (pvCompatOf a b)) =
+        .ok (mkUnion [.leaf (.single (pvLeafOf .lt "<" a b)), .leaf (.single (pvLeafOf .ge ">=" (a + 1) 0))]) ∧
+      InvOK (leafEval E) PvLeaf (.single (pvCompatOf a b))) ∧
+    (Leaf.invert (.single (pfvCompatOf a b c)) =
+        .ok (mkUnion [.leaf (.single (pfvLeafOf .lt "<" a [b, c])),
+          .leaf (.single (pfvLeafOf .ge ">=" a [b + 1, 0]))]) ∧
+      InvOK (leafEval E) Pfv3Leaf (.single (pfvCompatOf a b c))) :=
+  ⟨⟨invert_pvCompat a b, invOK_pvCompat hE.1 a b⟩, ⟨invert_pfvCompat a b c, invOK_pfvCompat hE.2 a b c⟩⟩
+
+/-- `SingleMarker("python_version", "~=3.8")` is the leaf with clause `[3.8, 4.0)` -/
+example : mkSingle "python_version" "~=3.8" false = .ok (pvCompatOf 3 8) ∧
+    mkSingle "python_full_version" "~=3.8.1" false = .ok (pfvCompatOf 3 8 1) := by
+  have t1 : "~=" ++ Version.relText [3, 8] = "~=3.8" := by decide
+  have t2 : "~=" ++ Version.relText [3, 8, 1] = "~=3.8.1" := by decide
+  exact ⟨t1 ▸ mkSingle_pvCompat 3 8, t2 ▸ mkSingle_pfvCompat 3 8 1⟩
+
+/-- **Intersection, union and inversion preserve truth on the full domain with `~=`, no unproved hypothesis**:
+plain string variables, `extra`, `python_version "X.Y"` and `python_full_version "X.Y.Z"` leaves with the seven
+operators `== != < <= > >= ~=`, in an environment of interpreter `X.Y.Z` defining the extras; every fuel, every
+stack.  The pairing between the two python fragments with `~=` is `pairSound_pyC` (C11/C17 conversion proofs). -/
+theorem intersect_union_invert_sound_fullC {ex : List String} (hX : E.extras = some ex) {X Y Z : Nat}
+    (hE : EnvPy E X Y Z) {a b r : M} :
+    (M.Good (FullLeafC E) a → M.Good (FullLeafC E) b → mIntersect fuel stk a b = .ok r →
+      M.Good (FullLeafC E) r ∧ M.validate E r = .ok (holds E a && holds E b)) ∧
+    (M.Good (FullLeafC E) a → M.Good (FullLeafC E) b → mUnion fuel stk a b = .ok r →
+      M.Good (FullLeafC E) r ∧ M.validate E r = .ok (holds E a || holds E b)) ∧
+    (M.Good (FullInvReadyC E) a → a.invert = .ok r →
+      M.Good (FullInvLeafC E) r ∧ M.validate E r = .ok (!holds E a)) := by
+  have HP := pairSound_pyC hE
+  refine ⟨fun ha hb h => ?_, fun ha hb h => ?_, fun ha h => ?_⟩
+  · have := intersect_sound_partial (leafSpec_fullC hX hE HP) (fun l hl => fullLeafC_evaluable hX hE hl) ha hb h
+    exact ⟨this.1, this.2.2⟩
+  · have := union_sound_partial (leafSpec_fullC hX hE HP) (fun l hl => fullLeafC_evaluable hX hE hl) ha hb h
+    exact ⟨this.1, this.2.2⟩
+  · have := M.invert_sound_fullC hX hE HP ha h
+    refine ⟨this.1, ?_⟩
+    rw [holds_is_validate E r (M.good_mono (fun l hl => fullInvLeafC_evaluable hX hE hl) r this.1)]
+    exact congrArg _ this.2
 
 /-- **Inversion preserves truth on every marker of single markers in C06's agreement domain** — no closure
 under merging is needed (inversion never merges), so this covers item classes outside the intersect/union
